@@ -202,3 +202,40 @@ def run(ctx: Context) -> None:  # noqa: F811
                             "(HPACK table, stream states and windows already updated) cannot be dropped by a cancellation before they are written")
     drain_write_atomic(ctx, "C12.R10", "a request cancelled there takes frames with it that the shared encoder has already accounted for - the server's HPACK table falls behind, "
                                        "every LATER request on the connection is decoded wrongly or refused (COMPRESSION_ERROR, GOAWAY) although its caller did nothing")
+
+
+
+_core_run_r11 = run
+
+
+def run(ctx: Context) -> None:  # noqa: F811
+    _core_run_r11(ctx)
+    from ..norm import UNKNOWN as _U, peval as _pe
+
+    rep = ctx.rep
+    rep.rule("C12.R11", "a peer's SETTINGS_MAX_CONCURRENT_STREAMS = 0 is never applied: the permit-withdrawing loop (which runs in the task that holds the read lock, and would wait "
+                        "for the permit of that task's own stream) is unreachable for the value 0")
+    n = 0
+    for tree, N in trees(ctx):
+        h2 = N.cls("http2", "AsyncHTTP2Connection")
+        for f in h2.methods.values():
+            for lp in [x for x in own_nodes(f.node) if isinstance(x, ast.While)]:
+                acq = [c for c in ast.walk(lp) if isinstance(c, ast.Call) and norm(c.func).endswith("_max_streams_semaphore.acquire")]
+                if not acq or "self._max_streams" not in norm(lp.test):
+                    continue
+                # the variable compared with the current limit in the loop test is the new limit
+                names = [x.id for x in ast.walk(lp.test) if isinstance(x, ast.Name)]
+                if not names:
+                    continue
+                n += 1
+                new = names[0]
+                reachable = True
+                for test, pol in list(guards_of(lp)) + [(lp.test, True)]:
+                    v = _pe(test, {new: 0, "self._max_streams": 1})
+                    if v is not _U and bool(v) != pol:
+                        reachable = False
+                rep.ob("C12.R11", fkey(tree, f, "zero-limit-not-applied"), not reachable, where(f, lp),
+                       "the loop that takes permits back is not entered for a new limit of 0" if not reachable else
+                       f"`{ast.unparse(lp.test)}` is reachable with {new} = 0: the reader task then waits for every permit, its own stream's included, while holding the read lock - "
+                       "no stream on the connection can make progress any more, not even after the peer raises the limit again")
+    rep.floor("C12.R11", "permit-withdrawing loops (both trees)", n, 2)
